@@ -14,7 +14,9 @@ PROPS["C10"] = {
                     "their sizes are reported in the evidence metrics (zone:*)",
                     "numeric values judged with the C12 tolerance; position of repeated keys may be first or last"],
     "quick": [_c10(0, 0, 0, 1, ["--full=4", "--core=6"]), _c10(1, 1, 1, 1, ["--full=3", "--core=5"]),
-              _c10(1, 0, 0, 0, ["--full=3", "--core=5"]), _c10(0, 1, 0, 1, ["--full=3", "--core=4"])],
+              _c10(1, 0, 0, 0, ["--full=3", "--core=5"]), _c10(0, 1, 0, 1, ["--full=3", "--core=4"]),
+              # the remaining pairs of option values: Infinity without NaN, NaN without unicode decoding
+              _c10(0, 0, 1, 1, ["--full=3", "--core=4"]), _c10(0, 1, 1, 0, ["--full=2", "--core=4"])],
     "thorough": [_c10(c, n, i, u, ["--full=5", "--core=7"] if (c, n, i, u) in ((0, 0, 0, 1), (1, 1, 1, 1)) else ["--full=4", "--core=6"])
                  for c in (0, 1) for n in (0, 1) for i in (0, 1) for u in (0, 1)],
     "thorough_deadline": 2400,
